@@ -191,7 +191,18 @@ def assignTail : List Char → Bool
   | '=' :: _ => true
   | _ => false
 
-/-- group 1 of `_ASSIGNMENT_RE.match(raw)` without its brackets: the subscript of `NAME[subscript]=…` / `NAME[subscript]+=…` -/
+/-- the text before the *last* `]=` / `]+=` (`word[: max(rfind("]="), rfind("]+="))]`) -/
+def uptoLastCloseEq : List Char → Option (List Char)
+  | [] => none
+  | c :: r =>
+    match uptoLastCloseEq r with
+    | some p => some (c :: p)
+    | none =>
+      if c = ']' ∧ (r.head? = some '=' ∨ (r.head? = some '+' ∧ r.tail.head? = some '=')) then some [] else none
+
+/-- the subscript text `_analyze_command` scans for `NAME[subscript]=…` / `NAME[subscript]+=…`: `_ASSIGNMENT_RE` must
+    match (its group 1 ends at the first `]`), the text taken runs from the first `[` to the last `]=`/`]+=` of the word
+    (a subscript may hold brackets of its own) -/
 def assignSubscript (raw : String) : Option String :=
   match raw.toList with
   | c :: rest =>
@@ -199,8 +210,8 @@ def assignSubscript (raw : String) : Option String :=
       match rest.dropWhile isNameChar with
       | '[' :: t =>
         (match t.dropWhile (· != ']') with
-         | ']' :: '+' :: '=' :: _ => some (String.ofList (t.takeWhile (· != ']')))
-         | ']' :: '=' :: _ => some (String.ofList (t.takeWhile (· != ']')))
+         | ']' :: '+' :: '=' :: _ => (uptoLastCloseEq t).map String.ofList
+         | ']' :: '=' :: _ => (uptoLastCloseEq t).map String.ofList
          | _ => none)
       | _ => none
     else none
